@@ -83,7 +83,7 @@ type opWeight struct {
 }
 
 var defaultOpWeights = []opWeight{
-	{OpAlloc, 22}, {OpWrite, 30}, {OpWriteMany, 8}, {OpRead, 8}, {OpFree, 10}, {OpFreeMany, 4},
+	{OpAlloc, 22}, {OpWrite, 30}, {OpWriteMany, 8}, {OpRead, 8}, {OpLoad, 4}, {OpFree, 10}, {OpFreeMany, 4},
 	{OpFlushPage, 5}, {OpFlushTx, 4}, {OpCheckpoint, 3}, {OpSetRoot, 4}, {OpFill, 2},
 }
 
@@ -138,7 +138,7 @@ func GenOp(t *rapid.T, p GenParams) Op {
 		op.A = rapid.IntRange(0, 63).Draw(t, "pick")
 		op.B = rapid.IntRange(2, 24).Draw(t, "count")
 		op.C = rapid.IntRange(1, 1<<20).Draw(t, "seed")
-	case OpRead, OpFree, OpFlushPage:
+	case OpRead, OpLoad, OpFree, OpFlushPage:
 		op.A = rapid.IntRange(0, 63).Draw(t, "pick")
 	case OpFreeMany:
 		op.A = rapid.IntRange(0, 63).Draw(t, "pick")
